@@ -216,6 +216,8 @@ def _configs(tier, salts):
             for name, cfg in cfgs.broad_cfgs(salt=salt, budgets=(3, 9, 30, 70), reg_budgets=(3, 8), overlays=("avg",)):
                 depth = 1 if (cfg.get("memo", True) and cfg["maxfun"] == 9 and "reg" not in cfg["broad_flags"]) else 0
                 out.append((cfg, {"depth": depth, "letters": ["nan", "nan1", "inf"]}))
+        if salt == 0 or (tier == "thorough" and salt == 1):
+            out += cfgs.linalg_fault_cfgs(salt, tier)      # results of the linear-algebra exits
         if salt == 0:
             # objective non-finite at every evaluation: results that carry NaN / inf fields
             for mode in ("plain", "diag", "soft_diag", "hard"):
